@@ -1,14 +1,23 @@
 # MANIFEST.setup_cmd: warm the build cache for the quick tier (everything is rebuilt on demand anyway).
-import subprocess, sys, os
+import json
+import os
+import subprocess
+import sys
+
 from . import common as C
+
 
 def run():
     tree = C.Tree()
     C.log("tree", tree.hash, "amalgam identical:", tree.regen_identical)
     here = os.path.dirname(os.path.dirname(os.path.abspath(__file__)))
-    rc = 0
-    for prop in ("C13", "C20", "C10", "C19"):
-        p = subprocess.run([sys.executable, os.path.join(here, "vcheck"), prop, "--tier", "quick"],
-                           cwd=here, capture_output=True, text=True, env=dict(os.environ, VERIF_SETUP="1"))
+    with open(os.path.join(here, "MANIFEST.json")) as fh:
+        props = [c["property_id"] for c in json.load(fh)["checks"]]
+    # one representative per engine/flag set is enough to fill the cache
+    for prop in ("C13", "C20", "C10", "C19", "C03", "C16", "C17", "C18", "C14"):
+        if prop not in props:
+            continue
+        p = subprocess.run([sys.executable, os.path.join(here, "vcheck"), prop, "--tier", "quick"], cwd=here,
+                           capture_output=True, text=True, env=dict(os.environ, VERIF_SETUP="1"))
         C.log("warm", prop, "rc", p.returncode)
     return 0
